@@ -34,23 +34,25 @@ CLAIMED = {
     "C06": (
         "Coq proof by structural induction (same invariant as C04) over the evaluation model + correspondence + all-assignments oracle",
         "Theorems C06_invalid_always / C06_valid_never (Props/C06.v): a structural predicate `valid` decides, for every assignment at once, whether evaluation raises the "
-        "invalid-expression error. Correspondence and oracle: all trees <= 3 leaves x all assignments.",
-        "Trusted: as C04. The validity-check entry point (is_valid_expression) is covered by the correspondence of the AHB-level model once that layer is built (see DESIGN.md section 12).",
+        "invalid-expression error; C06_ahb lifts this to AHB expressions (every generated content evaluation result) and C06_validity_check proves that the model of is_valid_expression's "
+        "try-every-result loop answers true iff every condition part is valid. Correspondence and oracle: all trees <= 3 leaves x all assignments; is_valid_expression vs the structural criterion.",
+        "Trusted: as C04; Model/Validity.v as a model of is_valid_expression (validated by the validity-check oracle on every run).",
         "DESIGN.md section 5 C06",
     ),
     "C01": (
         "Coq proof (induction over derivations; stratified grammar vs ambiguity resolution by rule order) over a rule table regenerated from the loaded Lark grammar + exhaustive small-scope correspondence with Lark",
         "Props/C01.v: every tree admitted by the modelled resolution (Rc: lowest rule order per span) is a derivation of the documented stratified precedence (Sc); such derivations are unique "
-        "modulo same-operator runs; every well-formed forest has one; the executable model parser computes it; redundant brackets and operator spelling do not change it. "
+        "modulo same-operator runs; every well-formed forest has one; the executable model parser computes it; redundant brackets and operator spelling do not change it; "
+        "at character level (C01_written_form_irrelevant, C01_brackets_read_back) any writing of a token list -- either spelling and case of an operator, any white space between tokens and inside square brackets -- lexes back to it and bracket grouping inverts printing. "
         "Unbounded in length and nesting. Lark itself is tied by correspondence: all token sequences up to length 5/6 plus random expressions, tree compared modulo runs.",
         "Trusted: Coq kernel; translator for the rule table (Gen_grammar); Rc as a model of Lark's Earley+resolve and Model/Lex.v as a model of its dynamic lexer (validated by correspondence, not verified). "
-        "White space is handled by the lexer model; its insensitivity to white space is established by correspondence and the metamorphic oracle, not yet by a theorem.",
+        "White-space and spelling insensitivity is a theorem about the lexer model (Proofs/C01_lexprint.v) over character classes regenerated from the loaded terminals.",
         "DESIGN.md section 5 C01",
     ),
     "C02": (
         "Coq proof that the model parsers return a tree or SyntaxError and accept exactly the forests derivable by the docstring grammar (= local well-formedness) + correspondence with Lark on three input streams for all entry points",
         "Props/C02.v: parse_cond s is Ok or Exn SyntaxErr for every string and accepts iff lexing and bracket matching succeed and the forest is locally well-formed, which is equivalent to derivability in the "
-        "ambiguous grammar of the docstring; the AHB scanner and the resolver (try AHB, then condition expression) return a tree or SyntaxError for every string; an AHB expression with a malformed condition part is rejected. "
+        "ambiguous grammar of the docstring; at character level (C02_lexer_language, C02_accepted_language) the lexer accepts exactly the writings of printed token lists and the accepted strings are exactly the writings of bracketed token sequences of grammar-derivable forests; the AHB scanner and the resolver (try AHB, then condition expression) return a tree or SyntaxError for every string; an AHB expression with a malformed condition part is rejected. "
         "Correspondence: condition parser, AHB parser and resolver vs the models on well-formed, nearly well-formed and garbage strings; the validity check by oracle.",
         "Trusted: as C01; Model/Ahb.v models Lark's dynamic lexer on the three AHB terminal regexes (character data computed by the translator with Python's re); resource limits (recursion depth, memory) are outside the model; "
         "is_valid_expression's (False, message) report is checked by the oracle only.",
@@ -104,15 +106,16 @@ CLAIMED = {
         "Coq proof: invariant of the token-level expression builder by induction over expressions, linked to the parser theorems of C01 + correspondence (string vs render, end-to-end part evaluation) and truth-table oracle",
         "Props/C07.v: for every in-domain valid expression and assignment the reported expression is absent iff the direct reading is empty, otherwise it is a builder-made token expression denoting a tree with the "
         "same Boolean value under every truth assignment and the same keys as the reading (C07_meaning); only FC keys of the source occur; the built forest has a derivation in the documented precedence grammar "
-        "(C07_wellformed) and every tree the parser's resolution admits for it has the value of the reading (C07_value_via_parser).",
-        "Trusted: as C04 and C01. Partial: that the implementation's string builder equals `render` of the token-level builder, and that lexing the rendered string yields the built forest, are established by "
-        "correspondence (character-by-character string comparison, and format_constraint_evaluation of the string vs the model), not by theorems. Interpretation S1 (DESIGN.md section 7).",
+        "(C07_wellformed) and every tree the parser's resolution admits for it has the value of the reading (C07_value_via_parser); C07_text: the reported STRING is accepted by the parser model and parses, modulo runs, to the tree denoting the reading.",
+        "Trusted: as C04 and C01. That the implementation's string builder writes `render` of the token-level builder is established by correspondence (character-by-character string comparison on every run), not by a theorem. "
+        "Interpretation S1 (DESIGN.md section 7).",
         "DESIGN.md section 5 C07",
     ),
     "C10": (
         "Coq proof over a model of expand_packages/expand_time_conditions on parse trees (incl. the placeholder pass) linked to the C01 parser theorems + exact-tree correspondence and the substitution equation as oracle",
         "Props/C10.v: expansion is the one-level substitution of package leaves by their package trees; the placeholder pass re-inserts every awaited result at the occurrence that produced it (repeated/neighbouring packages); "
         "an unknown package aborts with NotImplementedError; substitution preserves precedence derivations, hence the resolved tree equals modulo runs every parse of the bracketed substituted forest; "
+        "C10_textual_substitution states this at text level, as the property is worded: the parser model applied to the text in which every package is replaced by \"(\" + package text + \")\" returns the flattening of the resolver model's result; "
         "UB1/UB2/UB3 expansions over the table regenerated from TimeConditionTransformer (UB3's tree is the model parser's parse of its text, also in brackets).",
         "Trusted: as C01; Gen_timecond translator. Partial: the step from the substituted TEXT to the substituted forest (lexing of the inserted '(...)') is covered by the oracle's exact tree equality on ahbicht, not by a theorem; "
         "the lazy scan_values generator is abstracted to scan order.",
